@@ -233,30 +233,34 @@ func c39() {
 	xs := []float64{0, 0.25, 0.5, 0.75, 1}
 	nSeeds := 64
 	run.Bounds["max_candidates"] = maxN
-	run.Bounds["stakes"] = stakes
+	run.Bounds["stakes"] = "{0,1,2} ({0,1} for 6 candidates)"
 	run.Bounds["previous_set"] = "every subset of the candidates (plus one member that is not a candidate)"
 	run.Bounds["limit"] = "0..n+1"
-	run.Bounds["percent"] = xs
+	run.Bounds["percent"] = "{0,.25,.5,.75,1} ({0,.5,1} for 6 candidates)"
 	run.Bounds["seeds"] = "0..63"
 	run.Rule = "complete product: candidates 1..N x stake vectors x previous-set subsets x limits x percentages x seeds, for seeds 0..7 each call is made twice with the Go map filled in opposite orders; distinct = distinct (layout, set of selections over the seeds)"
 
 	t0 := time.Now()
 	var layouts []c39Layout
 	for n := 0; n <= maxN; n++ {
+		nStakes, nxs := stakes, xs
+		if n == 6 { // thorough only: the largest size with a reduced alphabet
+			nStakes, nxs = []int{0, 1}, []float64{0, 0.5, 1}
+		}
 		total := 1
 		for i := 0; i < n; i++ {
-			total *= len(stakes)
+			total *= len(nStakes)
 		}
 		for sv := 0; sv < total; sv++ {
 			st := make([]int, n)
 			x := sv
 			for i := 0; i < n; i++ {
-				st[i] = stakes[x%len(stakes)]
-				x /= len(stakes)
+				st[i] = nStakes[x%len(nStakes)]
+				x /= len(nStakes)
 			}
 			for prev := 0; prev < 1<<n; prev++ {
 				for limit := 0; limit <= n+1; limit++ {
-					for _, xp := range xs {
+					for _, xp := range nxs {
 						layouts = append(layouts, c39Layout{n, st, prev, limit, xp})
 					}
 				}
